@@ -178,6 +178,7 @@ func runC04(c *Ctx) {
 			return true
 		})
 	}
+	c04Extra(c)
 }
 
 // triEvalBool evaluates a boolean expression with the given identifiers bound to constants.
